@@ -5,6 +5,15 @@ from runner import Result
 import profiles, oracles, p_gen, probe
 
 
+def has_wide_field(adef):
+    for o in oracles.all_objects(adef["objects"]):
+        for key in ("fields", "fields_in", "fields_out"):
+            for f in o.get(key) or []:
+                if f["base"] != "bool" and f.get("end", f["start"] + 1) - f["start"] > 128:
+                    return True
+    return False
+
+
 def classify_compile_errors(c, errs):
     """Known-finding classes for rustc errors of one accepted definition; returns (class id or None)."""
     adef = c["adef"]
@@ -25,6 +34,9 @@ def classify_compile_errors(c, errs):
             if name in wo_fields:
                 classes.add("F11-debug-impl-calls-getter-of-write-only-field")
                 continue
+        if ("cannot find type `u256`" in e or "cannot find type `i256`" in e or "cannot find type `u512`" in e or "cannot find type `i512`" in e) and has_wide_field(adef):
+            classes.add("F18-field-wider-than-128-bits-gets-a-nonexistent-carrier")
+            continue
         if "cannot apply unary operator `-`" in e or ("E0600" in e):
             classes.add("F15-negative-literal-in-unsigned-internal-type")
             continue
